@@ -675,6 +675,47 @@ def _edge_table(e):
     return au.chain(a) is not None and au.chain(a)[-1] == "edges"
 
 
+def _comp_column(e):
+    """k when e is an unfiltered comprehension / generator over the edges yielding endpoint k of every edge, in edge order:
+    (e[k] for e in mesh.edges), [a for a, b in mesh.edges], (mesh.edges[i][k] for i in mesh.id_edges / range(len(mesh.edges)))"""
+    if not (isinstance(e, (ast.GeneratorExp, ast.ListComp)) and len(e.generators) == 1):
+        return None
+    g = e.generators[0]
+    if g.ifs or getattr(g, "is_async", 0):
+        return None
+    elt = e.elt
+    while isinstance(elt, ast.Call) and isinstance(elt.func, ast.Name) and elt.func.id in ("int", "float") and len(elt.args) == 1 and not elt.keywords:
+        elt = elt.args[0]
+    ch = au.chain(g.iter)
+    if ch and ch[-1] == "edges":
+        if isinstance(g.target, ast.Name) and isinstance(elt, ast.Subscript) and isinstance(elt.value, ast.Name) and elt.value.id == g.target.id:
+            k = au.literal(elt.slice)
+            if isinstance(k, int) and not isinstance(k, bool) and k in (0, 1, -1, -2):
+                return k % 2
+        if isinstance(g.target, (ast.Tuple, ast.List)) and len(g.target.elts) == 2 and all(isinstance(x, ast.Name) for x in g.target.elts) \
+                and isinstance(elt, ast.Name):
+            names = [x.id for x in g.target.elts]
+            if names[0] != names[1] and elt.id in names:
+                return names.index(elt.id)
+        return None
+    # index spelling
+    is_ids = bool(ch) and ch[-1] == "id_edges"
+    if not is_ids and isinstance(g.iter, ast.Call) and isinstance(g.iter.func, ast.Name) and g.iter.func.id == "range" and len(g.iter.args) == 1 \
+            and not g.iter.keywords:
+        a = g.iter.args[0]
+        if isinstance(a, ast.Call) and isinstance(a.func, ast.Name) and a.func.id == "len" and len(a.args) == 1:
+            c2 = au.chain(a.args[0])
+            is_ids = bool(c2) and c2[-1] == "edges"
+    if is_ids and isinstance(g.target, ast.Name) and isinstance(elt, ast.Subscript) and isinstance(elt.value, ast.Subscript):
+        inner = elt.value
+        c3 = au.chain(inner.value)
+        if c3 and c3[-1] == "edges" and isinstance(inner.slice, ast.Name) and inner.slice.id == g.target.id:
+            k = au.literal(elt.slice)
+            if isinstance(k, int) and not isinstance(k, bool) and k in (0, 1, -1, -2):
+                return k % 2
+    return None
+
+
 def _layout(e):
     """abstract layout of a vectorised expression over the edge table E:
     ('cols', (i, j)) = E with its columns ordered i, j; ('col', i); ('inter', i, j) = [c_i[0], c_j[0], c_i[1], c_j[1], ...];
@@ -694,8 +735,15 @@ def _layout(e):
                 return ("cols", tuple(base[1][i] for i in k))
     if isinstance(e, ast.Attribute) and e.attr == "T":
         return None
+    k = _comp_column(e)
+    if k is not None:
+        return ("col", k)
     if isinstance(e, ast.Call):
         t = au.call_tail(e)
+        if t == "fromiter" and e.args:
+            k = _comp_column(e.args[0])
+            if k is not None:
+                return ("col", k)
         if t in ("fliplr",) and len(e.args) == 1:
             base = _layout(e.args[0])
             return ("cols", base[1][::-1]) if base and base[0] == "cols" else None
